@@ -37,7 +37,7 @@ FORBIDDEN = re.compile(
 
 
 def jhash(obj) -> str:
-    return hashlib.sha256(json.dumps(obj, sort_keys=True, default=repr).encode()).hexdigest()[:16]
+    return hashlib.sha256(repr(obj).encode()).hexdigest()[:16]
 
 
 class Ctx:
@@ -198,6 +198,8 @@ def match_known(ctx: Ctx, failure: dict) -> dict | None:
 def write_replay(ctx: Ctx, kind: str, payload: dict) -> Path:
     REPLAYS.mkdir(exist_ok=True)
     payload = dict(payload)
+    if "case" in payload:
+        payload["case_py"] = repr(payload["case"])  # exact (JSON turns int keys into strings)
     payload.update({"property": ctx.prop, "kind": kind, "seed": ctx.seed, "tier": ctx.tier,
                     "replay_cmd": f"bin/check {ctx.prop} --replay <this file>"})
     path = REPLAYS / f"{ctx.prop}-{jhash(payload)}.json"
